@@ -20,7 +20,7 @@ func genDamageNode(r *rand.Rand) *plan.Plan {
 	k := plan.Knobs{Sched: true, Procs: 2, PQS: &boolF, Aggs: &boolF}
 	k.CardLimit = []int{3, 0}[r.IntN(2)]
 	p := &plan.Plan{Knobs: k, Params: map[string]any{}}
-	inc := plan.Incarnation{Boot: "full", SchedSeed: r.Uint64() | 1}
+	inc := plan.Incarnation{Boot: "full", SchedSeed: r.Uint64()>>11 | 1}
 	for _, ix := range []string{"dmA", "dmB"} {
 		g := NewEvGen(r, "layout", ix+"-", 4)
 		for s := 0; s < 2; s++ {
@@ -42,7 +42,7 @@ func genDamageNode(r *rand.Rand) *plan.Plan {
 		}
 	}
 	inc.Ops = append(inc.Ops, plan.Op{Kind: "mput", Events: dps}, plan.Op{Kind: "advance", DurMs: 61_000}, plan.Op{Kind: "shutdown"})
-	inc1 := plan.Incarnation{Boot: "full", SchedSeed: r.Uint64() | 1}
+	inc1 := plan.Incarnation{Boot: "full", SchedSeed: r.Uint64()>>11 | 1}
 	for _, ix := range []string{"dmA", "dmB"} {
 		inc1.Ops = append(inc1.Ops,
 			plan.Op{Kind: "query", Index: ix, Text: "*", Start: qStart, End: qEnd, Size: 500, Args: map[string]any{"includeNulls": true}},
